@@ -1586,6 +1586,16 @@ def check_c05(rep):
             what = 'build(%s, %s) = %s does not match %s: the quantifier binds to the last character of the unit only' % (
                 [''.join(map(chr, t_)) for t_ in tests], ','.join(k for k, v in settings.items() if v), json.dumps(''.join(map(chr, pat))), [''.join(map(chr, t_)) for t_ in missed])
             classify(rep, known, o.qid, key, what, {'inputs': {'quantified': tests, 'settings': settings}, 'observed': got}, bool(missed) and not skip or 'panic' in got[0])
+    # repetitions nested several levels deep: the real conversion followed by the real printer, one symbolic character in a fixed template
+    for tpl, esc in ([('xxbxxb', False), ('xxbxxbdxxbxxbd', False), ('xxbxxbdxxbxxbd', True)] + ([('xbxbdxbxbd', False), ('bxxbxxdbxxbxxd', True)] if rep.tier == 'thorough' else [])):
+        o = ob_add(rep, env.run('q05n', tpl, esc))
+        if o.result != 'sat':
+            continue
+        for m in o.verdict.models:
+            bad, what, obs = replay_nested(env, tpl, m['x'], esc)
+            cat_ = 'metacharacter' if m['x'] < 0x80 else 'non-ascii'
+            classify(rep, known, 'Q05n', 'template=%s,escape=%s,x=%s' % (tpl, str(esc).lower(), cat_), what,
+                     {'inputs': {'nested_template': tpl, 'x': m['x'], 'escape': esc}, 'observed': obs}, bad)
     # the second mechanism the property names: merging of adjacent repeat counts while inserting into the trie
     known, _ = load_known()
     run_trie_obligations(rep, env, known, TRIE_SHAPES_QUICK if rep.tier == 'quick' else TRIE_SHAPES_THOROUGH)
@@ -1647,7 +1657,37 @@ def replay_thresholds(env, cases, settings, th):
     return bool(viol) or bad or 'panic' in got[0], what2 + ('; ' + what if bad else ''), {'pattern': pat}
 
 
+def replay_nested(env, tpl, x, esc):
+    """build() of the one test case that the template describes, with conversion of repetitions: the pattern must compile, be pure ASCII when
+    escaping is on, match the test case and reject the same string with x replaced by another character"""
+    case = [x if ch == 'x' else ord(ch) for ch in tpl]
+    other = [0x71 if x != 0x71 else 0x7A if ch == 'x' else ord(ch) for ch in tpl]
+    other = [(0x71 if x != 0x71 else 0x7A) if ch == 'x' else ord(ch) for ch in tpl]
+    st_ = {'repetitions': True, 'escape': bool(esc)}
+    got = env.eval([{'op': 'build', 'cases': [case], 'settings': st_}])
+    pat = got[0].get('ok')
+    if pat is None:
+        return True, 'build() panics: %s' % str(got[0])[:160], {}
+    txt = ''.join(map(chr, pat))
+    r = env.eval([{'op': 'regex_find', 'pattern': pat, 'text': case}, {'op': 'regex_find', 'pattern': pat, 'text': other}])
+    full = lambda g: isinstance(g.get('ok'), list) and g['ok'][0] == 0 and g['ok'][1] == g['ok'][2]
+    problems = []
+    if 'compile_error' in str(r[0]):
+        problems.append('does not compile')
+    else:
+        if not full(r[0]):
+            problems.append('does not match its test case')
+        if full(r[1]):
+            problems.append('also matches %s' % json.dumps(''.join(map(chr, other))))
+    if esc and any(c >= 0x80 for c in pat):
+        problems.append('is not pure ASCII although escaping is on')
+    return bool(problems), 'build([%s], repetitions%s) = %s %s' % (json.dumps(''.join(map(chr, case))), ',escape' if esc else '', json.dumps(txt), '; '.join(problems)), {'pattern': pat}
+
+
 def replay_c05(env, rec):
+    if 'nested_template' in rec['inputs']:
+        bad, what, _ = replay_nested(env, rec['inputs']['nested_template'], rec['inputs']['x'], rec['inputs']['escape'])
+        return bad, what
     if 'threshold_cases' in rec['inputs']:
         bad, what, _ = replay_thresholds(env, rec['inputs']['threshold_cases'], tuple(rec['inputs']['settings_list']), tuple(rec['inputs']['thresholds']))
         return bad, what
